@@ -517,7 +517,8 @@ class TaskScenario(ScenarioData):
                             elif gaplength:
                                 # gaplength is working time - need to find next working slot after gap
                                 gap_hours = self._parse_duration(gaplength)
-                                gap_slots = int(gap_hours)  # Each slot is 1 hour
+                                granularity = self.project.attributes.get("scheduleGranularity", 3600)
+                                gap_slots = int(round(gap_hours * 3600 / granularity))
                                 dep_time_idx = self.project.dateToIdx(dep_time)
                                 # Skip gap_slots of working time (never beyond the scheduling horizon:
                                 # a gap that does not fit pushes the bound past the project end and the
